@@ -110,10 +110,15 @@ type cfg struct {
 	Fault   bool // the environment may garble a change event (schema change)
 	Delay   int  // binlog update delay in ms
 	WTR     int  // reactive.WriteThenReadDelay in ms
+	MetaBad bool // the column list cannot be fetched (driver.ErrBadConn) while change events arrive: they are undecodable
 }
 
 func (c cfg) name() string {
-	return fmt.Sprintf("queries=%v writers=%v fault=%t delay=%d wtr=%d", c.Queries, c.Writers, c.Fault, c.Delay, c.WTR)
+	s := fmt.Sprintf("queries=%v writers=%v fault=%t delay=%d wtr=%d", c.Queries, c.Writers, c.Fault, c.Delay, c.WTR)
+	if c.MetaBad {
+		s += " metabad=true"
+	}
+	return s
 }
 
 func parse(s string) cfg {
@@ -155,6 +160,9 @@ func parse(s string) cfg {
 	fmt.Sscan(get("fault"), &c.Fault)
 	fmt.Sscan(get("delay"), &c.Delay)
 	fmt.Sscan(get("wtr"), &c.WTR)
+	if strings.Contains(s, "metabad=true") {
+		c.MetaBad = true
+	}
 	return c
 }
 
@@ -194,6 +202,9 @@ func item(c cfg) *explore.Item {
 		streamer := replication.NewTestStreamer()
 		bl := livesql.VerifNewBinlog(ldb, "testdb", streamer)
 		bl.SetUpdateDelay(time.Duration(c.Delay) * time.Millisecond)
+		if c.MetaBad {
+			fdb.FailMeta = driver.ErrBadConn
+		}
 		garbled := 0
 		fdb.OnCommit = func(changes []fakesql.Change) {
 			kindOf := func(ch fakesql.Change) replication.EventType {
@@ -336,7 +347,7 @@ func item(c cfg) *explore.Item {
 			if !reflect.DeepEqual(append([]int64{}, l.held...), append([]int64{}, want...)) && !(len(l.held) == 0 && len(want) == 0) {
 				cl := "fresh-rows"
 				sig := "c07/fresh-rows/" + fs[qi].name
-				if garbled > 0 {
+				if garbled > 0 || c.MetaBad {
 					cl, sig = "undecodable-invalidates", "c07/undecodable-invalidates"
 				}
 				x.Fail(cl, sig, "live query %s holds rows %v after %d runs, the table now gives %v (garbled events: %d)", fs[qi].name, l.held, l.runs, want, garbled)
@@ -379,6 +390,9 @@ func configs(tier string) []cfg {
 		}
 		out = append(out, cfg{Queries: []int{0, 3}, Writers: [][]int{{pr[0]}, {pr[1]}}})
 	}
+	for _, q := range []int{0, 3, 5} {
+		out = append(out, cfg{Queries: []int{q}, Writers: [][]int{{q % 3, 3}}, MetaBad: true})
+	}
 	out = append(out, cfg{Queries: []int{0}, Writers: [][]int{{2}}, Delay: 5}, cfg{Queries: []int{0}, Writers: [][]int{{3}}, WTR: 3},
 		cfg{Queries: []int{2}, Writers: [][]int{{4}}, Delay: 5, WTR: 3, Fault: true})
 	if tier == "thorough" {
@@ -401,5 +415,5 @@ func run(rp *explore.Report, tier string) {
 func init() {
 	reg.Register(&reg.Harness{Property: "C07", Name: "c07/livesql", Level: "model_checking", Bounds: [2]int{2, 3}, Run: run,
 		Item: func(name string) *explore.Item { return item(parse(name)) },
-		Rule: "items = 1-2 live queries (rerunner around LiveDB.Query; filters on key, int32 column, two columns, NULL / pointer column, empty filter, other Go type) x 1-2 writers issuing inserts, updates moving rows into and out of the filter, deletes, upserts through sqlgen over an in-memory driver whose commits emit replication-shaped row events (typed ints, NULLs) into the real RunPollLoop through an in-process streamer, optional update delay / WriteThenReadDelay on the virtual clock, and explorer-chosen garbled events (extra column, unscannable value = schema change); all schedules within the deviation bound. Oracle at quiescence: rows held by each live query == filter evaluated on the final table; after Stop/close every goroutine ends and no dependency stays tracked"})
+		Rule: "items = 1-2 live queries (rerunner around LiveDB.Query; filters on key, int32 column, two columns, NULL / pointer column, empty filter, other Go type) x 1-2 writers issuing inserts, updates moving rows into and out of the filter, deletes, upserts through sqlgen over an in-memory driver whose commits emit replication-shaped row events (typed ints, NULLs) into the real RunPollLoop through an in-process streamer, optional update delay / WriteThenReadDelay on the virtual clock, a column-list fetch that fails with driver.ErrBadConn, and explorer-chosen garbled events (extra column, unscannable value = schema change); all schedules within the deviation bound. Oracle at quiescence: rows held by each live query == filter evaluated on the final table; after Stop/close every goroutine ends and no dependency stays tracked"})
 }
